@@ -798,7 +798,7 @@ def rule_G(ctx):
         for t2 in two:
             fam.append((t1, t2, 2, ((('MODE_MATCHING_DTW', 1), ('MODE_MATCHING_DTW', INFP), ('MODE_MATCHING_FDTW', 1)))))
     # (b) all pairs of tracks of 1..2 fixes on three lattice points
-    three = [list(s_) for L in (1, 2) for s_ in itertools.product((A_, B_, C_), repeat=L)]
+    three = [list(s_) for L in ((1, 2, 3) if ctx.tier == 'thorough' else (1, 2)) for s_ in itertools.product((A_, B_, C_), repeat=L)]
     for t1 in three:
         for t2 in three:
             fam.append((t1, t2, 2, (('MODE_MATCHING_DTW', 2), ('MODE_MATCHING_FDTW', INFP), ('MODE_MATCHING_FRECHET', 1))))
